@@ -4,6 +4,7 @@ import (
 	"fmt"
 	"math"
 	"sort"
+	"sync"
 
 	"github.com/unixpickle/model3d/model2d"
 	"github.com/unixpickle/model3d/model3d"
@@ -94,7 +95,7 @@ func genC2F(t *rapid.T) c2fCase {
 	// part radii are drawn from [2.5, rmax] coarse spacings; the coarse factor is limited so that a part stays below
 	// about 18 fine cells in radius (cost), yet is often much larger than the built-in dilation of 3.5 coarse spacings
 	// (otherwise the dilated coarse mesh covers the whole lattice and nothing is ever skipped)
-	rmax := gen.F(t, 3, 13, "rmax")
+	rmax := gen.F(t, 3, 16, "rmax")
 	c := c2fCase{Delta: gen.LogF(t, 0.02, 0.5, "delta"), K: gen.F(t, 1, math.Min(3, 20/rmax), "k"), Iters: rapid.IntRange(0, 5).Draw(t, "iters")}
 	if rapid.IntRange(0, 2).Draw(t, "hasextra") == 0 {
 		c.Extra = gen.F(t, 0, 1.5, "extra")
@@ -133,33 +134,89 @@ type grid3 struct {
 
 func (g *grid3) at(i, j, k int) bool { return g.val[i+len(g.ax[0])*(j+len(g.ax[1])*k)] }
 
+// rec3 records every query of a solid (append under a mutex: the shared map recorder of package gen is too slow
+// for lattices of 10^5 points).
+type rec3 struct {
+	model3d.Solid
+	mu  sync.Mutex
+	pts []kit.V3
+	val []bool
+}
+
+func (r *rec3) Contains(c model3d.Coord3D) bool {
+	b := r.Solid.Contains(c)
+	r.mu.Lock()
+	r.pts = append(r.pts, kit.V3{c.X, c.Y, c.Z})
+	r.val = append(r.val, b)
+	r.mu.Unlock()
+	return b
+}
+
+func uniqueSorted(xs []float64) []float64 {
+	sort.Float64s(xs)
+	out := xs[:0]
+	for i, x := range xs {
+		if i == 0 || x != xs[i-1] {
+			out = append(out, x)
+		}
+	}
+	return out
+}
+
+func indexOf(vals []float64, x float64) int {
+	i := sort.SearchFloat64s(vals, x)
+	if i < len(vals) && vals[i] == x {
+		return i
+	}
+	return -1
+}
+
 // observe3 runs the plain mesher on a recording wrapper and returns the lattice it sampled.
 func observe3(solid model3d.Solid, delta float64) (*grid3, error) {
-	rec := gen.NewRecorder3(solid)
+	rec := &rec3{Solid: solid}
 	model3d.MarchingCubes(rec, delta)
 	g := &grid3{}
 	for a := 0; a < 3; a++ {
-		seen := map[float64]bool{}
-		for p := range rec.Points {
-			if !seen[p[a]] {
-				seen[p[a]] = true
-				g.ax[a] = append(g.ax[a], p[a])
-			}
+		xs := make([]float64, len(rec.pts))
+		for i, p := range rec.pts {
+			xs[i] = p[a]
 		}
-		sort.Float64s(g.ax[a])
+		g.ax[a] = uniqueSorted(xs)
 	}
-	if len(rec.Points) != len(g.ax[0])*len(g.ax[1])*len(g.ax[2]) {
-		return nil, fmt.Errorf("%w: observed lattice is not a product grid", kit.ErrInfra)
-	}
-	g.val = make([]bool, len(rec.Points))
-	for k, z := range g.ax[2] {
-		for j, y := range g.ax[1] {
-			for i, x := range g.ax[0] {
-				g.val[i+len(g.ax[0])*(j+len(g.ax[1])*k)] = rec.Points[kit.V3{x, y, z}]
-			}
+	n := len(g.ax[0]) * len(g.ax[1]) * len(g.ax[2])
+	g.val = make([]bool, n)
+	seen := make([]bool, n)
+	count := 0
+	for i, p := range rec.pts {
+		idx := indexOf(g.ax[0], p[0]) + len(g.ax[0])*(indexOf(g.ax[1], p[1])+len(g.ax[1])*indexOf(g.ax[2], p[2]))
+		if !seen[idx] {
+			seen[idx] = true
+			count++
 		}
+		g.val[idx] = rec.val[i]
+	}
+	if count != n {
+		return nil, fmt.Errorf("%w: observed lattice is not a product grid (%d points on %d x %d x %d axes)", kit.ErrInfra, count, len(g.ax[0]), len(g.ax[1]), len(g.ax[2]))
 	}
 	return g, nil
+}
+
+// covered reports whether every point of the lattice g occurs among the recorded queries.
+func (g *grid3) covered(pts []kit.V3) bool {
+	n := len(g.ax[0]) * len(g.ax[1]) * len(g.ax[2])
+	seen := make([]bool, n)
+	count := 0
+	for _, p := range pts {
+		i, j, k := indexOf(g.ax[0], p[0]), indexOf(g.ax[1], p[1]), indexOf(g.ax[2], p[2])
+		if i < 0 || j < 0 || k < 0 {
+			continue
+		}
+		if idx := i + len(g.ax[0])*(j+len(g.ax[1])*k); !seen[idx] {
+			seen[idx] = true
+			count++
+		}
+	}
+	return count == n
 }
 
 // window returns the index range [i0, i1] of axis values inside [lo, hi] (empty if i0 > i1).
@@ -263,11 +320,11 @@ func checkC2F(c c2fCase, o *kit.Obs) error {
 	withProcs(1, func() { ref = canonTris(m3.Tris(model3d.MarchingCubesSearch(solid, c.Delta, c.Iters))) })
 	for i, p := range c.Procs {
 		var got []kit.Tri
-		var rec *gen.Recorder3
+		var rec *rec3
 		withProcs(p, func() {
 			var s model3d.Solid = solid
 			if i == 0 {
-				rec = gen.NewRecorder3(solid)
+				rec = &rec3{Solid: solid}
 				s = rec
 			}
 			got = canonTris(m3.Tris(model3d.MarchingCubesC2F(s, big, c.Delta, extra, c.Iters)))
@@ -278,17 +335,7 @@ func checkC2F(c c2fCase, o *kit.Obs) error {
 		o.Labelf("procs:%d", p)
 		if rec != nil && active > 0 {
 			// non-trivial: the coarse filter really skipped part of the fine lattice
-			skipped := false
-			for _, z := range fine.ax[2] {
-				for _, y := range fine.ax[1] {
-					for _, x := range fine.ax[0] {
-						if _, ok := rec.Points[kit.V3{x, y, z}]; !ok {
-							skipped = true
-						}
-					}
-				}
-			}
-			if skipped {
+			if !fine.covered(rec.pts) {
 				o.NonTrivial()
 				o.Label("fine-lattice-partly-skipped")
 			}
